@@ -10,5 +10,6 @@
 #[inline]
 pub(crate) fn is_valid_literal_block_scalar(string: &str) -> bool {
     string.chars().all(|character: char|
-        matches!(character, '\t' | '\n' | '\x20'..='\x7e' | '\u{0085}' | '\u{00a0}'..='\u{d7fff}'))
+        matches!(character, '\t' | '\n' | '\x20'..='\x7e' | '\u{0085}' | '\u{00a0}'..='\u{d7ff}'
+            | '\u{e000}'..='\u{fefe}' | '\u{ff00}'..='\u{fffd}' | '\u{10000}'..='\u{10ffff}'))
 }
